@@ -164,6 +164,9 @@ OpOk ==
          /\ After(m')
          /\ (hasSnap /\ Has("snap") => /\ V("CLEARED", RangeOK(T') /\ Contents(T') = {}, "entries stored after clear")
                         /\ V("POOLCLR", Len(T'.free) = Len(T'.nd) - 1, "clear did not return every slot to the free list"))
+    [] Ev.op = "drop" ->        \* the instance was dropped (instance-counting payload): no payload instance may be left
+         /\ Same                \* behind (lost), nor more be dropped than were ever made (dropped twice)
+         /\ V("DROPS", Ev.residue = 0, <<"payload instances left after dropping the collection", Ev.residue>>)
     [] OTHER -> Same /\ Breach(<<"unknown op", Ev.op>>)
 
 \* an injected callback panic left the call (C18)
@@ -205,7 +208,7 @@ StepOp ==
   /\ peak' = NewPeak /\ every' = every
   /\ DriftCheck
   \* binding: an instance that ships every snapshot must ship it with every call that returned
-  /\ (hasSnap /\ every = 1 /\ ~Has("snap") /\ ~Has("arena") /\ Ev.op \notin {"export", "exportn"} /\ Ev.out \in {"ok", "unwound"}
+  /\ (hasSnap /\ every = 1 /\ ~Has("snap") /\ ~Has("arena") /\ Ev.op \notin {"export", "exportn", "drop"} /\ Ev.out \in {"ok", "unwound"}
         => Breach(<<"snapshot missing: the structural predicates are unbound", Ev.op>>))
   /\ CASE Ev.out = "ok" -> OpOk
        [] Ev.out = "unwound" -> OpUnwound
